@@ -495,3 +495,9 @@ Definition rot3d (c0 s0 c1 s1 c2 s2 : Q) : mat :=
   [[c0 * c1; - s0 * c2 + c0 * s1 * s2;  s0 * s2 + c0 * s1 * c2];
    [s0 * c1;   c0 * c2 + s0 * s1 * s2; - c0 * s2 + s0 * s1 * c2];
    [- s1;      c1 * s2;                  c1 * c2]].
+
+(* ------------------------------------------------------------------ Hermite factors selected by ranks *)
+(* hermitePolynomials(y, r, ifacs) (Hermite.cpp:174): the recurrence is run up to the highest listed rank, then vec[k] = poly[ifacs[k]] *)
+Definition hermite_by_ranks (a b : nat -> Q) (y r : Q) (ifacs : list nat) : list Q :=
+  let poly := hermite_polynomials a b y r (S (fold_right Nat.max O ifacs)) in
+  map (fun k => nth k poly 0) ifacs.
